@@ -15,7 +15,7 @@ func isCondLockClass(class string) bool { return strings.HasSuffix(class, ".L") 
 func checkC15(c *Ctx) {
 	c.R.NotCover = append(c.R.NotCover,
 		"promptness in wall-clock terms", "fairness of the Go scheduler",
-		"that the predicate arithmetic itself is right (a waiter woken with a fresh but wrongly computed predicate)")
+		"that the predicate arithmetic is right beyond the linear facts of rule B11 (space accounting, waits only when the other cursor leaves too little)")
 	mons := locks.FindMonitors(c.P, c.Locks(), c.Effects())
 	var buf *locks.Monitor
 	for _, m := range mons {
@@ -37,6 +37,10 @@ func checkC15(c *Ctx) {
 	w, b, s := monitorRules(c, buf)
 	c.cachedCursorComparisons(buf)
 	c.closedEndsWait(buf)
+	// a call goes to sleep only when the other side's cursor, read under the lock, says it must (engine B at the Wait;
+	// needs the ring's size invariant)
+	c.ringMemorySafety()
+	c.ringSpaceAccounting()
 	c.R.Count("wait loops", w)
 	c.R.Count("broadcast sites", b)
 	c.R.Count("stores to foreign predicate state", s)
